@@ -6,11 +6,13 @@ mod archive;
 mod capi;
 mod cli;
 mod comp;
+mod compstream;
 mod derive;
 mod format;
 mod confid;
 mod enc;
 mod fscomp;
+mod fsstack;
 mod fuzz;
 mod header;
 mod history;
@@ -110,7 +112,7 @@ fn main() {
         #[cfg(feature = "scaled")]
         "c11-stack" => comp::c11_stack_cases(&mut rng, &tier, &mut out),
         #[cfg(feature = "scaled")]
-        "c08-stack" => comp::c08_stack_cases(&mut rng, &tier, &mut out),
+        "c08-stack" => compstream::c08_stack_cases(&mut rng, &tier, &mut out),
         #[cfg(feature = "scaled")]
         "c11-cw" => comp::c11_cw_cases(&mut rng, &tier, &mut out),
         #[cfg(feature = "scaled")]
